@@ -32,7 +32,26 @@ def route : List String → String
     | Option.none => "bad-op"
   | _ => "bad-op"
 
+/-- `cfgdeny <n>`: n keys are written into `key_deny_list_ssh_sha256` of a config FILE; keymaster-signed
+and IP-restricted certificates over each of them are then presented (model: the `:denied` shapes —
+`c06_denied_key`), plus two keys that are not listed. -/
+def cfgDeny : List String → String
+  | ["cfgdeny", _] =>
+    let shape (tls : String) := ["POST", "none", "1", tls, "none", "none", "1"]
+    let refused (tls : String) : Bool := match parseReq (shape tls) with
+      | some p => (outStr (checkAuth p.cfg p.req 65535)).startsWith "fail"
+      | Option.none => false
+    let admitted (tls : String) : Bool := match parseReq (shape tls) with
+      | some p => (outStr (checkAuth p.cfg p.req 65535)).startsWith "ok"
+      | Option.none => false
+    let a := if refused "km:2:denied" then "-" else "all"
+    let b := if refused "ipin:2:denied" then "-" else "all"
+    let c := if admitted "km:2" && admitted "ipin:2" then "2/2" else "?"
+    s!"admitted={a} ipadmitted={b} control={c}"
+  | _ => "bad-op"
+
 def both : List String → String
+  | "cfgdeny" :: rest => cfgDeny ("cfgdeny" :: rest)
   | "ca" :: rest => model ("ca" :: rest)
   | "rt" :: rest => route ("rt" :: rest)
   | _ => "bad-op"
